@@ -241,6 +241,22 @@ Proof.
   - keys; try discriminate. eapply Hwi; eauto.
 Qed.
 
+Lemma step_handover_inv : forall c s, Inv (step st (HandOver c s)).
+Proof.
+  intros c s. simpl. destruct (work st c s) as [b|] eqn:W; [|exact I].
+  constructor; simpl; unfold upd_work; eauto.
+  - intros x [Hx|Hx]; [subst; eapply Hwl; eauto | auto].
+  - intros c1 s1 x H. destruct (key_eqb c s c1 s1); [discriminate | eapply Hwl; eauto].
+  - intros x Hp [Hx|Hx]; [subst; eapply Hwp; eauto | eapply Hpo; eauto].
+  - intros c1 s1 x H. destruct (key_eqb c s c1 s1); [discriminate | eapply Hwp; eauto].
+  - intros c1 s1 x H [Hx|Hx].
+    + subst. destruct (key_eqb c s c1 s1) eqn:K; [discriminate|]. apply key_eqb_false in K.
+      destruct (Hwi _ _ _ _ _ W H) as [? ?]. subst. apply K. auto.
+    + destruct (key_eqb c s c1 s1); [discriminate | eapply Hwo; eauto].
+  - intros c1 s1 c2 s2 x H1 H2. destruct (key_eqb c s c1 s1); [discriminate|]. destruct (key_eqb c s c2 s2); [discriminate|].
+    eapply Hwi; eauto.
+Qed.
+
 End StepInv.
 
 Lemma step_inv : forall st o, Inv st -> disciplined o -> Inv (step st o).
@@ -256,6 +272,7 @@ Proof.
   - apply step_copyout_inv; assumption.
   - apply step_put_inv; assumption.
   - apply step_drop_inv; assumption.
+  - apply step_handover_inv; assumption.
 Qed.
 
 Lemma run_inv : forall h st, Inv st -> Forall disciplined h -> Inv (run st h).
@@ -295,6 +312,7 @@ Proof.
   - destruct (work st c s) eqn:W; [|contradiction]. destruct Hw as [Hw|[]]. subst. apply (inv_owned_lt st I) in Hb. lia.
   - destruct (work st c s) eqn:W; [|contradiction]. destruct Hw as [Hw|[]]. subst. eapply inv_work_owned; eauto.
   - contradiction.
+  - contradiction.
 Qed.
 
 (* frame: an operation changes only the buffers it writes (for every operation, buggy ones included) *)
@@ -313,6 +331,7 @@ Proof.
   - destruct (work st c s) eqn:W; simpl; [|reflexivity]. unfold upd_mem. mems; try reflexivity. exfalso; apply Hw; left; reflexivity.
   - reflexivity.
   - destruct (work st c s) eqn:W; reflexivity.
+  - destruct (work st c s) eqn:W; reflexivity.
   - destruct (work st c s) eqn:W; simpl; [|reflexivity]. unfold upd_mem. mems; try reflexivity. exfalso; apply Hw; left; reflexivity.
   - destruct (memb b0 (owned st)); reflexivity.
 Qed.
@@ -330,6 +349,7 @@ Proof.
   - destruct (work st c s); simpl; [right|]; assumption.
   - destruct (work st c s); simpl; assumption.
   - assumption.
+  - destruct (work st c s); simpl; [right|]; assumption.
   - destruct (work st c s); simpl; [right|]; assumption.
   - destruct (work st c s); simpl; assumption.
   - destruct (memb b0 (owned st)); simpl; assumption.
@@ -428,6 +448,9 @@ Proof.
     mems; [|reflexivity]. destruct (Hwi _ _ _ _ _ W W') as [? ?]. subst. exfalso. apply E. auto.
   - (* Drop *)
     split; simpl; [|assumption]. intros c' s'. unfold upd_pw, upd_work. keys; [reflexivity | apply Lw].
+  - (* HandOver *)
+    rewrite Lw. destruct (work st c s) as [b|] eqn:W; simpl; [|split; assumption].
+    split; simpl; [|rewrite Lo; reflexivity]. intros c' s'. unfold upd_pw, upd_work. keys; [reflexivity | apply Lw].
 Qed.
 
 Lemma link_run : forall h st ps, Inv st -> Link st ps -> Forall disciplined h -> Link (run st h) (prun ps h).
@@ -440,7 +463,7 @@ Qed.
 Definition agree (c : nat) (p q : pstate) : Prop :=
   (forall s, pw p c s = pw q c s) /\ pobs_of c p = pobs_of c q.
 
-Lemma pobs_of_cons_other : forall c c' l w o, c' <> c -> pobs_of c (mkP w ((c', l) :: o)) = pobs_of c (mkP w o).
+Lemma pobs_of_cons_other : forall c c' l w w' o, c' <> c -> pobs_of c (mkP w ((c', l) :: o)) = pobs_of c (mkP w' o).
 Proof. intros. unfold pobs_of. simpl. destruct (c' =? c) eqn:E; [apply Nat.eqb_eq in E; congruence | reflexivity]. Qed.
 
 Lemma pobs_of_cons_same : forall c l w o, pobs_of c (mkP w ((c, l) :: o)) = pobs_of c (mkP w o) ++ [l].
@@ -477,6 +500,9 @@ Proof.
   - rewrite <- Aw. destruct (w c s) eqn:W; [|split; assumption]. split; simpl; [|exact Ao].
     intros s0. unfold upd_pw. keys; [reflexivity | apply Aw].
   - split; simpl; [|exact Ao]. intros s0. unfold upd_pw. keys; [reflexivity | apply Aw].
+  - rewrite <- Aw. destruct (w c s) eqn:W; [|split; assumption]. split; simpl.
+    + intros s0. unfold upd_pw. keys; [reflexivity | apply Aw].
+    + rewrite !pobs_of_cons_same. f_equal. exact Ao.
 Qed.
 
 Lemma agree_trans : forall c p q r, agree c p q -> agree c q r -> agree c p r.
